@@ -91,3 +91,54 @@ func hostFacts(repo string) {
 		})
 	}
 }
+
+// condSeq lists the conditions of every `if` (and the tags of every `for`/`range`) in a function, in
+// source order, function literals included: the decision skeleton of the function.
+func condSeq(fd *ast.FuncDecl) []string {
+	var acc []string
+	ast.Inspect(fd.Body, func(n ast.Node) bool {
+		switch x := n.(type) {
+		case *ast.IfStmt:
+			acc = append(acc, "if "+text(x.Cond))
+		case *ast.RangeStmt:
+			acc = append(acc, "range "+text(x.X))
+		case *ast.ForStmt:
+			if x.Cond != nil {
+				acc = append(acc, "for "+text(x.Cond))
+			}
+		case *ast.SwitchStmt:
+			if x.Tag != nil {
+				acc = append(acc, "switch "+text(x.Tag))
+			}
+		case *ast.CaseClause:
+			for _, e := range x.List {
+				acc = append(acc, "case "+text(e))
+			}
+		}
+		return true
+	})
+	return acc
+}
+
+// skeletons: decision skeletons of the functions whose models are written by hand and have no
+// other structural tie (C13 Compile/ParsePatterns, C15 GetChanged/SetMachine/DeleteMachine,
+// C19 Session.Run, C20 Analyze).
+func skeletons(repo string) {
+	for _, it := range []struct{ file, fn, key string }{
+		{"tools/expect/expect.go", "Session.Run", "skeleton:expect.Session.Run"},
+		{"sio/crew.go", "Crew.GetChanged", "skeleton:sio.Crew.GetChanged"},
+		{"sio/crew.go", "Crew.SetMachine", "skeleton:sio.Crew.SetMachine"},
+		{"sio/crew.go", "Crew.DeleteMachine", "skeleton:sio.Crew.DeleteMachine"},
+		{"sio/crew.go", "Crew.ProcessMsg", "skeleton:sio.Crew.ProcessMsg"},
+		{"core/spec.go", "Spec.Compile", "skeleton:core.Spec.Compile"},
+		{"core/spec.go", "Spec.ParsePatterns", "skeleton:core.Spec.ParsePatterns"},
+		{"tools/analysis.go", "Analyze", "skeleton:tools.Analyze"},
+	} {
+		fs := funcs(parse(repo, it.file))
+		if fd := fs[it.fn]; fd != nil {
+			seqs[it.key] = condSeq(fd)
+		} else {
+			seqs[it.key] = []string{"<missing>"}
+		}
+	}
+}
